@@ -307,6 +307,7 @@ class AstChecks:
         vs += O.check_C02(inv, er, erased)
         vs += O.check_C03(er, res['cfgspec'].terms)
         vs += O.check_C15_C12(outv, to_view(res['H'].status(), I.P.defs), O.count_hooks(outv))
+        vs += O.check_C15_debug(er, to_view(res['H'].status(), I.P.defs), outv)
         vs += O.check_C05_names(er, res['cfgspec'].terms)
         vs += O.check_C06_block(outv, er) if isinstance(outv, dict) and outv.get('_t') == 'BlockStmt' else []
         vs += O.check_C06_collision(inv, outv, to_view(res['H'].status(), I.P.defs), res['cfgspec'].prefix)
@@ -459,6 +460,7 @@ class ProgramScenario(AstChecksBase):
         vs += O.check_C02_program(inv, er, erased)
         vs += O.check_C03(er, res['cfgspec'].terms)
         vs += O.check_C15_C12(outv, to_view(res['H'].status(), I.P.defs), O.count_hooks(outv))
+        vs += O.check_C15_debug(er, to_view(res['H'].status(), I.P.defs), outv)
         if self.prologue:
             vs += O.check_C12_program(inv, outv, to_view(res['H'].status(), I.P.defs))
         vs += O.check_C05_names(er, res['cfgspec'].terms)
@@ -1105,4 +1107,134 @@ class PrintScenario:
             role = 'print/comment-removal-alters-other-text' if (res['comments'] and res['has_comment']) else 'print/unexpected-content'
             info['violations'].append({'prop': 'C10', 'role': role, 'detail': 'code=%r comment=%r -> %r, expected %r' % (code, comment, nat.get('content'), exp),
                                        'witness': {'input': code, 'config': desc, 'agree': bool(agree), 'native_output': nat.get('content'), 'predicted_output': exp, 'native': {'ok': nat.get('ok')}, 'note': 'query decided by cvc5 (str.replace_all)'}})
+        return info
+
+
+# ---------------------------------------------------------------------------------------------
+# RewriterConfig::to_config (C05: documented defaults, prologue text)
+
+class ToConfigScenario:
+    VERBS = [None, 'OFF', 'off', 'Debug', 'MANDATORY', 'INFORMATION', 'bogus', '']
+    EXPECT = {None: 'Information', 'OFF': 'Off', 'off': 'Off', 'Debug': 'Debug', 'MANDATORY': 'Mandatory', 'INFORMATION': 'Information', 'bogus': 'Information', '': 'Information'}
+
+    def grammar(self, ctx, program):
+        g = ExtractGrammar(ctx, program)
+        g.stubs = {'try_with_handler': self.stub_parse, 'usize': self.stub_rand, 'fastrand::usize': self.stub_rand, 'Compiler::new': lambda I, info, args: Adt('Compiler', None, [Ptr(Cell(models.Opaque('SourceMap')), (), 'arc'), models.Opaque('SwcComments')]),
+                   'SourceMap::new': lambda I, info, args: models.Opaque('SourceMap'), 'FilePathMapping::empty': lambda I, info, args: models.Opaque('FilePathMapping')}
+        g.templates = []
+        g.rands = []
+        return g
+
+    def stub_parse(self, I, info, args):
+        # try_with_handler(cm, opts, closure): the closure captures the prologue text; return a one-statement script
+        clo = args[2]
+        text = None
+        for f in clo.fields:
+            v = models.deref(f)
+            if isinstance(v, StrV):
+                text = v
+        I.grammar.templates.append(text)
+        sd = I.P.defs
+        marker = Adt('Stmt', sd['Stmt'].vindex('Empty'), [Adt('EmptyStmt', None, [models.mkspan(7000, 7001)])])
+        script = Adt('Script', None, [models.mkspan(1, 2), VecV([marker]), models.none()])
+        return models.ok(Adt('Program', sd['Program'].vindex('Script'), [script]))
+
+    def stub_rand(self, I, info, args):
+        r = args[0]
+        lo, hi = r.fields[0], r.fields[1]
+        v = I.ctx.var('rand%d' % len(I.grammar.rands), z3.IntSort())
+        I.ctx.add(z3.And(v >= lo, v < hi), dom=False)
+        I.grammar.rands.append(v)
+        return v
+
+    def run(self, I):
+        ctx = I.ctx
+
+        def optbool(label):
+            k = ctx.choose([True, True, True], label)
+            return [None, True, False][k]
+
+        def mkopt(v):
+            return models.none() if v is None else models.some(v)
+        mode = ctx.choose([True, True], 'mode: options | methods')
+        if mode == 0:
+            chain, comments, literals = optbool('chainSourceMap'), optbool('comments'), optbool('literals')
+            prefix = [None, 'pfx'][ctx.choose([True, True], 'localVarPrefix')]
+            verb = self.VERBS[ctx.choose([True] * len(self.VERBS), 'telemetryVerbosity')]
+            nm = 0
+        else:
+            chain = comments = literals = prefix = verb = None
+            nm = ctx.choose([True, True, True], 'csiMethods')      # None | [] | [m0, m1]
+        methods = None
+        mdesc = []
+        if nm == 1:
+            methods = VecV([])
+        elif nm == 2:
+            items = []
+            for i, src in enumerate(['substring', 'plusOperator']):
+                dst = [None, 'dst%d' % i][ctx.choose([True, True], 'dst %d' % i)]
+                op = optbool('operator %d' % i) if i == 0 else True
+                awc = optbool('allowedWithoutCallee %d' % i) if i == 0 else None
+                items.append(Adt('lib_wasm::CsiMethod', None, [StrV(src), mkopt(StrV(dst) if dst else None), mkopt(op), mkopt(awc)]))
+                mdesc.append({'src': src, 'dst': dst, 'operator': op, 'awc': awc})
+            methods = VecV(items)
+        rc = Adt('lib_wasm::RewriterConfig', None, [mkopt(chain), mkopt(comments), mkopt(StrV(prefix) if prefix else None), mkopt(methods), mkopt(StrV(verb) if verb is not None else None), mkopt(literals)])
+        cfg = I.call_path('lib_wasm::RewriterConfig::to_config', [Ptr(Cell(rc))], None)
+        return {'cfg': cfg, 'in': {'chain': chain, 'comments': comments, 'literals': literals, 'prefix': prefix, 'verbosity': verb, 'methods': None if nm == 0 else mdesc}, 'I': I}
+
+    def check_path(self, I, ctx, res, replay, do_tv):
+        info = {'violations': [], 'tv': None, 'sample': None, 'obligations': 0, 'hooks': 1}
+        g = I.grammar
+        defs = I.P.defs
+        c = to_view(res['cfg'], defs)
+        inp = res['in']
+
+        def vio(role, cond, detail):
+            info['obligations'] += 1
+            if cond is False:
+                return
+            if cond is not True and not ctx.check(cond):
+                return
+            info['violations'].append({'prop': 'C05', 'role': role, 'detail': '%s | options: %s' % (detail, json.dumps(inp)), 'witness': {'input': json.dumps(inp), 'agree': True, 'note': 'obligation on RewriterConfig::to_config (its callers take wasm JsValue, no native replay)'}})
+
+        def want(name, got, exp):
+            vio('defaults/%s' % name, O.neg(O.leaf_eq(got, exp)), '%s = %s, expected %s' % (name, got, exp))
+        want('chain_source_map', c['chain_source_map'], inp['chain'] if inp['chain'] is not None else False)
+        want('print_comments', c['print_comments'], inp['comments'] if inp['comments'] is not None else False)
+        want('literals', c['literals'], inp['literals'] if inp['literals'] is not None else True)
+        vd = defs['TelemetryVerbosity']
+        want('verbosity', c['verbosity']['_d'], vd.vindex(self.EXPECT[inp['verbosity']]))
+        if inp['prefix'] is not None:
+            want('local_var_prefix', c['local_var_prefix'], inp['prefix'])
+        else:
+            # the prefix is the concatenation of the characters pushed by rnd_string: six of them, each a lower-case letter
+            # (decided on the character-code terms; the string-level query times out in z3)
+            pushed = ctx.notes.get('pushed_chars', [])
+            if len(pushed) != 6 or len(g.rands) != 6:
+                vio('defaults/random-prefix-length', True, '%d characters from %d random draws' % (len(pushed), len(g.rands)))
+            for i, ch in enumerate(pushed):
+                cz = ch if isinstance(ch, z3.ExprRef) else z3.IntVal(ch)
+                vio('defaults/random-prefix-not-lowercase-letter', z3.Not(z3.And(cz >= 97, cz <= 122)), 'character %d = %s' % (i, str(ch)[:60]))
+        ms = c['csi_methods']['methods']
+        exp_ms = inp['methods'] or []
+        if len(ms) != len(exp_ms):
+            vio('methods/count', True, '%d methods, expected %d' % (len(ms), len(exp_ms)))
+        else:
+            for m, e in zip(ms, exp_ms):
+                want('method-src', m['src'], e['src'])
+                want('method-dst-default', m['dst'], e['dst'] if e['dst'] is not None else e['src'])
+                want('method-operator-default', m['operator'], e['operator'] if e['operator'] is not None else False)
+                want('method-allowed-without-callee-default', m['allowed_without_callee'], e['awc'] if e['awc'] is not None else False)
+        # prologue text: one `<dst>: noop` per configured method, in order, in the fixed template
+        if not g.templates or g.templates[0] is None:
+            vio('prologue/not-generated', True, '')
+        else:
+            text = g.templates[0].s
+            entries = ', '.join('%s: noop' % (e['dst'] if e['dst'] is not None else e['src']) for e in exp_ms)
+            exp_text = ";if (typeof _ddiast === 'undefined') (function(globals){ const noop = (res) => res; globals._ddiast = globals._ddiast || { " + entries + " }; }((1,eval)('this')));"
+            want('prologue-text', text, exp_text)
+        fp = c['file_prefix_code']
+        if len(fp) != 1:
+            vio('prologue/parsed-statements-not-used', True, '%d statements' % len(fp))
+        info['sample'] = {'input': json.dumps(inp), 'output': json.dumps({k: str(v) for k, v in c.items() if k in ('chain_source_map', 'print_comments', 'literals', 'local_var_prefix')}), 'status': 'n/a', 'hooks': 0}
         return info
